@@ -164,6 +164,9 @@ impl JobManager {
 
     /// Waits for all managed jobs to complete.
     pub async fn wait_all(&mut self) -> Result<Vec<Job>, error::Error> {
+        #[cfg(feature = "verif-hooks")]
+        crate::verif_hooks::pause("wait_all_start");
+
         for job in &mut self.jobs {
             job.wait().await?;
         }
